@@ -24,6 +24,10 @@ func (pms PublicKeyMultiSignature) NewMultiKey(keys ...PublicKey) (PublicKeyMult
 }
 
 func (pms PublicKeyMultiSignature) VerifyBytes(msg []byte, multiSignature []byte) bool {
+	// a key without member keys has no signer: an empty multi-signature must not verify vacuously
+	if len(pms.PublicKeys) == 0 {
+		return false
+	}
 	var multiSig MultiSig
 	err := cdc.UnmarshalBinaryBare(multiSignature, &multiSig)
 	if err != nil {
